@@ -181,6 +181,14 @@ def gen_cases(rng, tier):
                               [], "same-instant"))
             cases.append(_cmp(["rec", ds, [V.NONE, ["list", []], V.S("k")], {"_generated": x}],
                               ["rec", ds, [V.NONE, ["list", []], V.S("k")], {"_generated": y}], [], "same-instant"))
+    # two descriptors with the same fields whose NAMES differ only in '/' versus '_' (they map to one Python class name):
+    # different descriptors, so their records are unequal, whichever was declared last
+    F2 = [["string", "h"], ["varint", "p"]]
+    for na, nb in (("net/conn_log", "net_conn/log"), ("net_conn/log", "net/conn_log"), ("a/b_c", "a_b/c")):
+        ra = ["rec", [na, F2], [V.S("x"), V.I(1)], M]
+        rb = ["rec", [nb, F2], [V.S("x"), V.I(1)], M]
+        cases.append(_cmp(ra, rb, [], "other"))
+        cases.append(_cmp(ra, rb, ["h"], "other"))
     nanr = ["rec", ["t/f", [["float", "f"]]], [["float", "7ff8000000000000"]], M]
     cases.append(_cmp(nanr, nanr, [], "copy"))
     # --- random pairs
